@@ -32,6 +32,9 @@ type Tgt struct {
 	Free    int      `json:"free"`   // free variable of a closure (-1 = none)
 	Doc     int      `json:"doc"`
 	Removed bool     `json:"removed"`
+	// FlagNamed: the BUILD file spells the name as "<prefix>" + MODE (root package, Proj.Flag != ""): Name is what that
+	// evaluates to under the arguments every load of the history is given
+	FlagNamed bool `json:"flagNamed,omitempty"`
 }
 
 func (t *Tgt) Label() string { return "//" + t.Pkg + ":" + t.Name }
@@ -51,11 +54,30 @@ type Proj struct {
 	Forms       map[string]string         `json:"forms,omitempty"`
 	Files       map[string]string         `json:"files"` // root-relative path → content (sources; files inside source dirs)
 	Dirs        []string                  `json:"dirs"`  // source directories
+	// Flag: "" = no project flag; otherwise the root package declares MODE = parse_flag("mode", default="std") and EVERY
+	// load of the history (builds, gc, index loads, fingerprint loads) is given the arguments --mode=<Flag>
+	Flag string `json:"flag,omitempty"`
+	// Broken: packages whose BUILD.dawn currently ends in a syntax error (a half-finished edit)
+	Broken map[string]bool `json:"broken,omitempty"`
+}
+
+// flagArgs: LoadOptions.Args of every load of a history on this project
+func (p *Proj) flagArgs() []string {
+	if p.Flag == "" {
+		return nil
+	}
+	return []string{"--mode=" + p.Flag}
 }
 
 func (p *Proj) clone() *Proj {
 	q := &Proj{Pkgs: append([]string{}, p.Pkgs...), Globals: map[string]map[string]int{}, Noise: map[string]int{}, Blank: map[string]int{},
-		HelperK: p.HelperK, HelperV: p.HelperV, HelperNoise: p.HelperNoise, Files: map[string]string{}, Dirs: append([]string{}, p.Dirs...)}
+		HelperK: p.HelperK, HelperV: p.HelperV, HelperNoise: p.HelperNoise, Files: map[string]string{}, Dirs: append([]string{}, p.Dirs...), Flag: p.Flag}
+	if p.Broken != nil {
+		q.Broken = map[string]bool{}
+		for k, v := range p.Broken {
+			q.Broken[k] = v
+		}
+	}
 	for k, v := range p.Globals {
 		q.Globals[k] = map[string]int{}
 		for a, b := range v {
@@ -350,6 +372,10 @@ func (p *Proj) renderBuild(pkg string) string {
 	for i := 0; i < p.Blank[pkg]%4; i++ {
 		sb.WriteString("\n")
 	}
+	if pkg == "" && p.Flag != "" {
+		// no choices=: parse_flag panics on them (gotcha recorded in the design)
+		sb.WriteString("MODE = parse_flag(\"mode\", default=\"std\")\n")
+	}
 	var gs []string
 	for g := range p.Globals[pkg] {
 		gs = append(gs, g)
@@ -385,7 +411,11 @@ func (p *Proj) renderBuild(pkg string) string {
 		if t.Glob != "" {
 			srcs += fmt.Sprintf(" + glob([%q])", t.Glob)
 		}
-		kw := fmt.Sprintf("name=%q, deps=%s, sources=%s, generates=%s", t.Name, quoteList(deps, ""), srcs, quoteList(t.Gens, "/"))
+		nameExpr := fmt.Sprintf("%q", t.Name)
+		if t.FlagNamed && p.Flag != "" && t.Pkg == "" && strings.HasSuffix(t.Name, p.Flag) {
+			nameExpr = fmt.Sprintf("%q + MODE", strings.TrimSuffix(t.Name, p.Flag))
+		}
+		kw := fmt.Sprintf("name=%s, deps=%s, sources=%s, generates=%s", nameExpr, quoteList(deps, ""), srcs, quoteList(t.Gens, "/"))
 		if t.Always {
 			kw += ", always=True"
 		}
@@ -419,6 +449,9 @@ func (p *Proj) renderBuild(pkg string) string {
 			}
 			fmt.Fprintf(&sb, "@target(%s)\ndef %s_fn(%s):\n%s%s\n%s%s\n\n", kw, t.Name, params, ind, doc, ind, body)
 		}
+	}
+	if p.Broken[pkg] {
+		sb.WriteString("\ndef half_written(:\n")
 	}
 	return sb.String()
 }
@@ -632,6 +665,15 @@ func (e *Edit) apply(p *Proj, root string) error {
 		t := p.tgt(e.Target)
 		t.Srcs = remove(t.Srcs, e.Path)
 		rebuild = true
+	case "break":
+		if p.Broken == nil {
+			p.Broken = map[string]bool{}
+		}
+		p.Broken[e.Path] = true
+		rebuild = true
+	case "unbreak":
+		delete(p.Broken, e.Path)
+		rebuild = true
 	case "rmtarget":
 		p.tgt(e.Target).Removed = true
 		rebuild = true
@@ -825,7 +867,13 @@ func (p *Proj) modelDefs(n *numbering, fps map[string]string) []string {
 		for _, d := range t.Deps {
 			deps = append(deps, n.label(d))
 		}
-		for _, s := range p.srcsOf(t) {
+		srcs := p.srcsOf(t)
+		if t.Glob != "" {
+			// the body processes self.sources as a sorted set (see vbBody): the order of the list is no input
+			srcs = append([]string{}, srcs...)
+			sort.Slice(srcs, func(i, j int) bool { return realPath(srcs[i]) < realPath(srcs[j]) })
+		}
+		for _, s := range srcs {
 			deps = append(deps, n.label(sourceLabelOf(s)))
 			reads = append(reads, n.label(sourceLabelOf(s)))
 			if !srcSeen[s] {
